@@ -448,3 +448,15 @@ Definition in_subchunk_current (cs j k : nat) : bool :=
 Definition in_subchunk_repaired (cs j k : nat) : bool := Nat.leb (j * cs) k && Nat.ltb k ((j + 1) * cs).
 Definition covered (inw : nat -> nat -> nat -> bool) (size cs k : nat) : bool :=
   existsb (fun j => inw cs j k) (seq 0 (subchunks size cs)).
+
+(* -- descending ordered merge (SortedMergeTransform with opt.Ascending = false): the readers deliver their rows newest
+      first and the merge compares with the reversed order *)
+Definition arow_geb (a b : arow) : bool := arow_leb b a.
+Fixpoint merge2d (a : list arow) : list arow -> list arow :=
+  fix inner (b : list arow) : list arow :=
+    match a, b with
+    | [], _ => b
+    | _, [] => a
+    | x :: a', y :: b' => if arow_geb x y then x :: merge2d a' b else y :: inner b'
+    end.
+Definition merge_kd (ls : list (list arow)) : list arow := fold_right merge2d [] ls.
